@@ -96,22 +96,39 @@ def ev(e, env):
     raise ValueError(t)
 
 
-def build(g):
+def kw_site(a, sub, argexprs):
+    """call sites that pass their last argument by keyword (to a callee declaring a default for it):
+    every directly called @gen function at an odd address"""
+    return sub[0] == "fn" and len(argexprs) >= 1 and a % 2 == 1
+
+
+def build(g, kw=False):
     t = g[0]
     if t == "dist":
         return STUBS[g[1]]
     if t == "fn":
         body = g[1]
 
-        def src(*args):
-            env = list(args)
+        def run(env):
             p = body
             while p[0] == "call":
                 _, a, sub, argexprs, k = p
-                r = build(sub)(*[ev(x, env) for x in argexprs]) @ name(a)
+                vals = [ev(x, env) for x in argexprs]
+                if kw_site(a, sub, argexprs):
+                    r = build(sub, kw=True)(*vals[:-1], kwlast=vals[-1]) @ name(a)
+                else:
+                    r = build(sub)(*vals) @ name(a)
                 env.append(r)
                 p = k
             return ev(p[1], env)
+
+        if kw:
+            def src_kw(*args, kwlast=7.0):      # a default the call site always overrides
+                return run(list(args) + [kwlast])
+            return gen(src_kw)
+
+        def src(*args):
+            return run(list(args))
 
         return gen(src)
     if t == "cond":
@@ -464,6 +481,49 @@ class ProgGen:
         n = rng.choice([0, 1, 2, 2, 3])
         callee = self.fn(["S", "S"], depth, ret="CO")
         return ["scan", n, callee], n
+
+    def mixture(self):
+        """A mixture-shaped program: fn(a0, a1): z@0 and mu@1 are sites whose values follow the arguments,
+        y@2 = Cond(brT, brF)(z > K, mu): the indicator z decides the branch, mu is the branch argument and
+        both branches score the same (shared) addresses with different dependence on mu.  Moves that change
+        z and mu together flip the branch while changing its arguments."""
+        rng = self.rng
+        dk = [k for k in self.dkinds if k in (0, 1, 2)] or [0]
+
+        def branch(coef):
+            calls = []
+            env_n = 1
+            for a in rng.sample(range(self.naddr), rng.choice([1, 2])):
+                # tape fixed (the value stays put when unselected), parameter follows the branch argument
+                param = ["add", ["mul", ["k", coef], ["v", 0]], ["k", rng.randint(-1, 1)]]
+                calls.append((a, ["dist", rng.choice(dk)], [["k", rng.randint(-2, 2)], param]))
+                env_n += 1
+            p = ["ret", ["v", rng.randrange(env_n)]]
+            for a, sub, args in reversed(calls):
+                p = ["call", a, sub, args, p]
+            return ["fn", p]
+        bt, bf = branch(rng.choice([1, 2])), branch(rng.choice([-1, 0, 3]))
+        if rng.random() < 0.5:
+            # same address skeleton in both branches
+            bf = ["fn", self._reparam(bt[1], rng.choice([-1, 0, 3]))]
+        calls = [
+            (0, ["dist", rng.choice(dk)], [["add", ["v", 0], ["k", rng.randint(-1, 1)]], ["k", rng.randint(-1, 1)]]),
+            (1, ["dist", rng.choice(dk)], [["sub", ["v", 1], ["k", rng.randint(-1, 1)]], ["v", 0]]),
+            (2, ["cond", bt, bf], [["gt", ["v", 2], ["k", rng.randint(-1, 1)]], ["v", 3]]),
+        ]
+        p = ["ret", ["add", ["v", 2], ["v", 4]]]
+        for a, sub, args in reversed(calls):
+            p = ["call", a, sub, args, p]
+        self.collide_now = False
+        return ["fn", p], ["S", "S"]
+
+    def _reparam(self, p, coef):
+        if p[0] == "ret":
+            return p
+        _, a, sub, args, k = p
+        param = ["add", ["mul", ["k", coef], ["v", 0]], ["k", self.rng.randint(-1, 1)]]
+        return ["call", a, ["dist", self.rng.choice([x for x in self.dkinds if x in (0, 1, 2)] or [0])], [args[0], param],
+                self._reparam(k, coef)]
 
     def top(self):
         """A top-level program with its argument types."""
